@@ -546,12 +546,16 @@ class Gen:
             return None
         hs = [q for q in self.hot_spaces() if q in sp]
         p = self.rng.choice(hs) if hs and self.rng.random() < 0.6 else self.rng.choice(sp)
+        if len(p) > 1 and self.rng.random() < 0.4:
+            p = p[:self.rng.randrange(1, len(p))]        # an ancestor: the whole subtree goes
         return {"op": "del_space", "p": list(p)}
 
     def mk_rename_space(self):
         sp = self.mir["sp"]
         hs = [q for q in self.hot_spaces() if q in sp]
         p = self.rng.choice(hs) if hs and self.rng.random() < 0.6 else self.rng.choice(sp)
+        if len(p) > 1 and self.rng.random() < 0.5:
+            p = p[:self.rng.randrange(1, len(p))]        # an ANCESTOR of the space that was just used
         nm = self.rng.choice(["X", "Y", "Z"])
         if any(q[:-1] == list(p[:-1]) and q[-1] == nm for q in sp):
             return None
@@ -590,6 +594,27 @@ class Gen:
             # failure is asked again
             if isinstance(res, int) and res >= -2:
                 self.ok_calls = (getattr(self, "ok_calls", []) + [dict((k, op[k]) for k in ("op", "c", "args", "sp"))])[-3:]
+                # scenario "the callee's space moves": a space of another tree whose cells this
+                # evaluation went through (or one of its ancestors) is renamed or deleted
+                w0 = PROFILES[self.profile]
+                if w0.get("rename_space", 0) and not self.queue and self.rng.random() < 0.25:
+                    top = op["c"][0][0]
+                    others = sorted({tuple(f[1][0]) for f in ev.get("fx", [])
+                                     if f[0] == "enter" and not f[1][1] and f[1][0][0] != top
+                                     and list(f[1][0]) in self.mir["sp"]})
+                    if others:
+                        deep = [x for x in others if len(x) > 1]
+                        q = list(self.rng.choice(deep if deep and self.rng.random() < 0.7 else others))
+                        # (a strict ancestor more often than the space itself)
+                        q = q[:self.rng.randrange(1, len(q))] if len(q) > 1 and self.rng.random() < 0.65 else q
+                        nm = self.rng.choice(["X", "Y", "Z"])
+                        if self.rng.random() < 0.7 and not any(
+                                r[:-1] == q[:-1] and r[-1] == nm for r in self.mir["sp"]):
+                            edit = {"op": "rename_space", "p": q, "nm": nm}
+                        else:
+                            edit = {"op": "del_space", "p": q} if len(self.mir["sp"]) > 2 else None
+                        if edit:
+                            self.queue += [edit, dict((k, op[k]) for k in ("op", "c", "args", "sp"))]
                 # scenario "edit a precedent": one of the elements this evaluation computed (at any
                 # depth, through cached or uncached cells) is assigned or cleared; then ask again
                 w = PROFILES[self.profile]
